@@ -14,9 +14,14 @@ from __future__ import annotations
 
 import asyncio
 import concurrent.futures as cf
+import contextvars
 from typing import Any, AsyncGenerator, Dict, List, Optional, Tuple, Union
 
 from mc.vloop import HarnessError, World
+
+# index of the delivery whose async task function last started in the current asyncio task: tells two
+# deliveries that carry the same task id (a redelivery overlapping the first execution) apart
+_CUR_DELIVERY: contextvars.ContextVar = contextvars.ContextVar("mc_cur_delivery", default=None)
 
 MSG_DEFAULT = {
     "kind": "valid",  # valid | malformed | unknown
@@ -317,6 +322,7 @@ class RecvWorld(World):
         world = self
         sc = self.sc
         self.msgs: List[Dict[str, Any]] = [msg_spec(**m) for m in sc.get("msgs", [])]
+        self._shared_ids = any(m.get("same_id_as") is not None for m in self.msgs)
         for _ in range(sc.get("probe", 0)):
             self.msgs.append(msg_spec(outcome="never", probe=True))
         n = len(self.msgs)
@@ -455,7 +461,7 @@ class RecvWorld(World):
                         prepared[lk], labels_types[lk] = prepare_label(lv)
                     labels = prepared
                 tm = TaskiqMessage(
-                    task_id=f"m{i}",
+                    task_id=f"m{m['same_id_as']}" if m.get("same_id_as") is not None else f"m{i}",
                     task_name=("no.such:task" if m["kind"] == "unknown" else self.task_name_for(i)),
                     labels=labels,
                     labels_types=labels_types,
@@ -560,6 +566,7 @@ class RecvWorld(World):
         world = self
 
         async def t_async(i):  # noqa: ANN001 - un-annotated on purpose
+            _CUR_DELIVERY.set(i)
             world.emit("START", i)
             m = world.msgs[i]
             try:
@@ -698,6 +705,11 @@ class RecvWorld(World):
 
     # ------------------------------------------------------------------ helpers
     def idx_of(self, task_id: str) -> int:
+        if self._shared_ids:
+            # two deliveries share this id: the one whose function ran in the current asyncio task
+            cur = _CUR_DELIVERY.get()
+            if cur is not None:
+                return cur
         return int(task_id[1:])
 
     def msg_index(self, message: Any) -> int:
